@@ -3,8 +3,8 @@
 # (fixed) repository, run the quick checks of the given properties, undo. Env: BASE (branch/commit,
 # default stage), TIER, SEED.
 patch=$1; shift
-wt=/var/tmp/repo-mut
-base=${BASE:-stage}
+wt=${WT:-/var/tmp/repo-mut}
+base=${BASE:-main}
 if [ ! -d $wt ]; then git -C /repo worktree add -q --detach $wt $base; fi
 git -C $wt checkout -q --detach $base 2>/dev/null; git -C $wt checkout -q -- . ; git -C $wt clean -fdq
 git -C $wt apply "$patch" || { echo "PATCH DOES NOT APPLY: $patch"; exit 3; }
